@@ -640,3 +640,43 @@ def run(cx):
         bypass = call_sites_through(prog, nr, lambda c: name_matches(c.fn, ("anemo::network::peer::Peer::do_rpc", "anemo::connection::Connection::open_bi")), depth=1)
         ob.require(n_rpc == 1 and n_new == 1 and not bypass, "network-rpc/through-peer",
                    f"NetworkInner::rpc does not go through exactly one Peer (built by Peer::new) and its rpc() (Peer::rpc sites {n_rpc}, Peer::new reached {n_new}, bypass {len(bypass)})", nr.path)
+
+    with cx.ob("C11.5", "R-CALLERS", "an unparsable timeout header is never an error of the request: every user of try_parse_timeout maps its Err to 'absent' (unwrap_or_else(|_| None) / ok().flatten() / unwrap_or), none propagates it") as ob:
+        sites = prog.callers_of(f"{TO}::try_parse_timeout", crates=["anemo"])
+        ob.floor(sites, 3, "call sites of try_parse_timeout (two middlewares, Request::timeout)")
+        for c in sites:
+            bd = c.body
+            o = Origins(bd)
+            users = []
+            for c2 in bd.calls():
+                if bd.is_cleanup(c2.bb) or c2 is c:
+                    continue
+                for i_, a_ in enumerate(c2.args):
+                    t_ = strip_identity(o.of_operand(a_))
+                    if t_[0] == "call" and name_matches(t_[1], f"{TO}::try_parse_timeout") and t_[3] == c.bb:
+                        users.append(c2)
+            okk = bool(users) and all(name_matches(u.fn, ("Result::unwrap_or_else", "Result::unwrap_or", "Result::ok", "Result::unwrap_or_default")) for u in users)
+            sws = list(find_switch_on(bd, lambda s_: s_[0] == "discr" and strip_identity(s_[1])[0] == "call" and name_matches(strip_identity(s_[1])[1], f"{TO}::try_parse_timeout"), o))
+            sw = []
+            if sws and not users:
+                # an explicit `match try_parse_timeout(..) { Ok(t) => .., Err(_) => <absent> }`: fine when nothing that only the
+                # Err arm reaches returns an error
+                okk = True
+                for sw_, subj, labels in sws:
+                    et = [t_ for t_, ls in labels.items() if ls == {"Err"}]
+                    ot = [t_ for t_, ls in labels.items() if ls == {"Ok"}]
+                    if len(et) != 1 or len(ot) != 1:
+                        okk = False
+                        continue
+                    only_err = bd.reachable_from(et[0]) - bd.reachable_from(ot[0])
+                    for i_ in only_err:
+                        if any(st["k"] == "assign" and st["lhs"] == 0 and st["rv"]["k"] == "agg" and st["rv"].get("variant") == "Err" for st in bd.blocks[i_]["s"]):
+                            okk = False
+                        c3 = bd.call_at(i_)
+                        if c3 is not None and name_matches(c3.fn, ("FromResidual::from_residual", "core::panicking::panic", "core::panicking::panic_fmt")):
+                            okk = False
+            elif sws:
+                sw = sws
+            ob.require(okk and not sw, f"parse-error-absorbed/{owner_path(prog, bd)}",
+                       f"{bd.path}: the result of try_parse_timeout is used by {[u.fn.split('::')[-1] for u in users] or 'a match / `?`'} - an unparsable header must count as absent, not fail the request", bd.path, bd.loc(c.bb))
+
